@@ -198,6 +198,19 @@ def identity_laws(run: core.Run) -> None:
             "two-blocks": {"combine": "by_position", "blocks": [{"mode": "by_position", "context": {"factor": [2.0, 4.0]}},
                                                                 {"mode": "by_position", "context": {"extra": [1, 2]}}]},
         }
+        # value types: plans that differ only in the TYPE or the exact text of a value are different plans
+        def one(extra):
+            return {"combine": "combinatorial", "max_runs": 100, "blocks": [{"mode": "by_position", "context": dict({"factor": [2.0, 3.0]}, **extra)}]}
+        plans.update({
+            "ints": {"combine": "combinatorial", "max_runs": 100, "blocks": [{"mode": "by_position", "context": {"factor": [2, 3]}}]},
+            "str-trailing-newline": one({"label": ["first\nsecond\n", "x"]}),
+            "str-no-trailing-newline": one({"label": ["first\nsecond", "x"]}),
+            # (CRLF vs LF inside a string is NOT a different plan: RSCF v1 normalises line breaks by design)
+            "bool": one({"flag": [True, False]}),
+            "int01": one({"flag": [1, 0]}),
+            "none": one({"flag": [None, None]}),
+            "empty-str": one({"flag": ["", ""]}),
+        })
         seen_ids: Dict[str, str] = {}
         for name, rs in plans.items():
             doc = base_doc(tmp, trace_mode="dir", rs=rs)
